@@ -149,6 +149,9 @@ package main
 //@   assert after AllocateFromPoolForAdditionalFamily#1: [rec5f] ret1 == nil ==> fresh(c.ips.allocated[key].ips) && len(lbIPs) == 1
 //@   assert after append#2: [rec9] c.ips.allocated[key] != nil && len(c.ips.allocated[key].ips) == 2 && len(ret) == 2 && sameSlice(c.ips.allocated[key].ips[0], ret[0]) && sameSlice(c.ips.allocated[key].ips[1], ret[1])
 //@   assert before allocateIPs#1: [cleared] c.ips.allocated[key] == nil
+// the request is looked at (and a malformed one refused with an error) only once the addresses of the status are either
+// on record again or cleared: an error return never leaves a status address that the allocator does not know (C01)
+//@   assert before getDesiredLbIPs#1: [statusBackedOrCleared] ite(len(lbIPs) != 0, c.ips.allocated[key] != nil && sameSlice(c.ips.allocated[key].ips, lbIPs), len(svc.Status.LoadBalancer.Ingress) == 0)
 //@   assert after allocateIPs#1: [rec7] ret1 == nil ==> c.ips.allocated[key] != nil && sameSlice(c.ips.allocated[key].ips, ret0)
 //@   assert before isEqualIPs#1: [ph2] len(lbIPs) != 0 && valueForAnnotationSpec(svc) != "" ==> c.ips.allocated[key].pool == valueForAnnotationSpec(svc)
 //@   assert after isEqualIPs#1: [ph3] len(lbIPs) != 0 && valueForAnnotationSpec(svc) != "" ==> c.ips.allocated[key].pool == valueForAnnotationSpec(svc)
